@@ -39,6 +39,7 @@ ASSUMPTIONS = ['lamb=None (unregularised, rank-deficient solves) is outside '
     'normal-equation residual tolerance 1e3 eps (||M|| ||x|| + ||rhs||)',
     'als_func is driven with thr_pow=0 (documented dynamic mode-size search '
     'off), so "same shape" applies']
+COVER = ['als.als', 'als._lstsq', 'als._optimize_core', 'als._optimize_core_adaptive', 'als_func.als_func', 'als_func._optimize_core', 'utils._info_appr']
 SHARDS = {'quick': 12, 'thorough': 16}
 
 _cur = {'mode': None}
